@@ -8,7 +8,7 @@ import os
 from dataclasses import dataclass, field
 
 from .budget import StepBudgetExceeded, step_budget
-from .monitors import HUB, Event, graph_state, hierarchy_problems, trace_of, truth_from_state, _wrap_fluent, _purity, RULE_BUDGET, SCAN_BUDGET
+from .monitors import HUB, Event, graph_state, hierarchy_problems, trace_of, truth_from_state, _wrap_fluent, _purity, RULE_BUDGET, SCAN_BUDGET, rule_budget
 from .refmodel import scan as rscan
 
 
@@ -66,6 +66,17 @@ def _wrap_scan():
             ba = sig.bind(*args, **kwargs)
             ba.apply_defaults()
             a = _normalise_scan_args(ba)
+            intent = getattr(HUB, "scan_intent", None)
+            if intent is not None:
+                # the caller went through the module-object entry point: the scan is judged by what the CALLER asked for
+                # (directories of the two module objects, the options as given), not by what that function hands on
+                HUB.scan_intent = None
+                if any(ba.arguments.get(k) != v for k, v in intent.items()):
+                    HUB.acc.count("module_object_entry_point_handed_on_other_arguments_than_it_was_given")
+                import types as _types
+
+                a = _normalise_scan_args(_types.SimpleNamespace(arguments=dict(intent)))
+                HUB.acc.count("module_object_scans_judged_by_the_callers_arguments")
         except TypeError:
             return orig(*args, **kwargs)
         HUB.acc.count("scan_calls")
@@ -140,6 +151,33 @@ def _wrap_scan():
     get_evaluable_architecture._pta_orig = orig
     entry.get_evaluable_architecture = get_evaluable_architecture
     pytestarch.get_evaluable_architecture = get_evaluable_architecture
+
+    orig_mo = entry.get_evaluable_architecture_for_module_objects
+    sig_mo = inspect.signature(orig_mo)
+
+    @functools.wraps(orig_mo)
+    def get_evaluable_architecture_for_module_objects(*args, **kwargs):
+        if not HUB.active:
+            return orig_mo(*args, **kwargs)
+        try:
+            bm = sig_mo.bind(*args, **kwargs)
+            bm.apply_defaults()
+            d = dict(bm.arguments)
+            intent = {"root_path": os.path.dirname(d.pop("root_module").__file__), "module_path": os.path.dirname(d.pop("module").__file__)}
+            intent.update(d)
+            if set(intent) != set(sig.parameters):
+                intent = None
+        except Exception:  # noqa: BLE001  (not a call this monitor understands)
+            intent = None
+        HUB.scan_intent = intent
+        try:
+            return orig_mo(*args, **kwargs)
+        finally:
+            HUB.scan_intent = None
+
+    get_evaluable_architecture_for_module_objects._pta_orig = orig_mo
+    entry.get_evaluable_architecture_for_module_objects = get_evaluable_architecture_for_module_objects
+    pytestarch.get_evaluable_architecture_for_module_objects = get_evaluable_architecture_for_module_objects
 
 
 def _judge_scan(se: ScanEvent) -> None:
@@ -311,7 +349,7 @@ def _wrap_layer_rule_assert():
         before = graph_state(evaluable)
         exc = None
         try:
-            with step_budget(RULE_BUDGET):
+            with step_budget(rule_budget(before)):
                 orig(self, evaluable)
             outcome, msg, et = "pass", None, None
         except AssertionError as e:
@@ -533,7 +571,7 @@ def _wrap_diagram_rule():
         before = graph_state(evaluable)
         exc = None
         try:
-            with step_budget(RULE_BUDGET * 4):
+            with step_budget(rule_budget(before, 4)):
                 orig(self, evaluable)
             outcome, msg, et = "pass", None, None
         except AssertionError as e:
